@@ -380,6 +380,54 @@ struct Explorer {
             keys = saved;
         }
     }
+    // Large scripted family: a bulk-load of N irregularly spaced keys (several segments per indexed level, models that use their
+    // error band) into a level that keeps room, then scripts whose flushes merge INTO that level: k erases of stored keys and k
+    // inserts of fresh neighbours with 2k = buffer capacity + 1 (the merged level keeps its size while its contents shift), the same
+    // interleaved, and overwrites followed by erases; a second round re-inserts the erased keys and erases the fresh ones. The oracle
+    // battery runs after every operation. `upto` (replay) stops after that many operations.
+    static std::vector<K> irregular_keys(int N) {
+        std::vector<K> v; K cur = 1000;
+        for (int i = 0; i < N; ++i) { cur = K(cur + 2 + ((uint32_t(i) * 2654435761u >> 7) % 9) * ((i % 17 == 0) ? 40 : 1)); v.push_back(cur); }
+        return v;
+    }
+    void large(int N, int variant, int upto = -1) {
+        auto base_keys = irregular_keys(N);
+        std::vector<std::pair<K, int>> init;
+        for (int i = 0; i < N; ++i) init.emplace_back(base_keys[i], i % 2);
+        size_t B = 0, pw = 1; for (int j = 0; j <= cfg.buffer_level; ++j) { B += pw; pw *= cfg.base; }
+        int k = int((B + 1) / 2);
+        if (k > N) return;
+        keys.clear();
+        for (int i = 0; i < k; ++i) keys.push_back(base_keys[size_t(i) * size_t(N) / size_t(k) + (variant % 2)]);      // erase targets
+        for (int i = 0; i < k; ++i) keys.push_back(K(keys[i] + 1));                                                  // fresh neighbours (gaps are >= 2)
+        { std::set<K> q; for (size_t i = 0; i < keys.size(); i += std::max<size_t>(1, keys.size() / 16)) { q.insert(keys[i]); q.insert(K(keys[i] + 1)); q.insert(K(keys[i] - 1)); }
+          for (int i = 0; i < N; i += std::max(1, N / 12)) q.insert(base_keys[i]); q.insert(std::numeric_limits<K>::min()); q.insert(K(base_keys.back() + 5)); queries.assign(q.begin(), q.end()); }
+        std::vector<Op> script;
+        if (variant / 2 == 0) { for (int i = 0; i < k; ++i) script.push_back({1, i, 0}); for (int i = 0; i < k; ++i) script.push_back({0, k + i, i % 2}); }
+        else if (variant / 2 == 1) { for (int i = 0; i < k; ++i) { script.push_back({1, i, 0}); script.push_back({0, k + i, i % 2}); } }
+        else { for (int i = 0; i < k; ++i) script.push_back({0, i, 1 - i % 2}); for (int i = 0; i < k; ++i) script.push_back({1, i, 0}); }
+        size_t first_round = script.size();
+        for (size_t i = 0; i < first_round; ++i) { Op o = script[i]; script.push_back(o.kind == 1 ? Op{0, o.key_idx, 1} : Op{1, o.key_idx, 0}); }   // second round: the inverse operations
+        script.push_back({0, 0, 0}); script.push_back({1, k, 0});
+        std::string id = cfg_str + " large N=" + std::to_string(N) + " variant=" + std::to_string(variant);
+        State s; s.obj = nullptr;
+        run.set_case(id + " upto=0 (construct)");
+        try { s.obj = make_initial(init, s.model); } catch (const std::exception &e) { run.violation(id + " upto=0", std::string("construction threw: ") + e.what()); return; }
+        run.add(cn.initial_states); run.add(cn.states);
+        bool ok = check_state(*s.obj, s.model, id + " upto=0");
+        for (size_t i = 0; i < script.size() && ok && (upto < 0 || int(i) < upto) && !run.deadline_passed(); ++i) {
+            std::string cs = id + " upto=" + std::to_string(i + 1);
+            run.set_case(cs);
+            bool buffer_full = s.obj->levels[0].size() >= s.obj->buffer_max_size; size_t before = nonempty_levels(*s.obj);
+            apply(*s.obj, s.model, script[i]);
+            run.add(cn.transitions); run.add(cn.states); run.add(cn.nontrivial);
+            if (buffer_full && s.obj->levels[0].empty()) { run.add(cn.merges); if (before >= 3) run.add(cn.deep_merges); }
+            ok = check_state(*s.obj, s.model, cs);
+        }
+        if (variant == 0) run.sample(id + " upto=" + std::to_string(script.size()) + " -> used_levels=" + std::to_string(int(s.obj->used_levels)) + " size=" + std::to_string(s.obj->size()));
+        delete s.obj;
+    }
+
     void replay_sweep(const std::map<std::string, std::string> &m) {
         // the case string is "… sweep n=<n> placement=<p> step=<s>": re-run that n completely
         int n = atoi(m.at("n").c_str()), pl = atoi(m.at("placement").c_str());
@@ -395,6 +443,7 @@ struct Explorer {
 
     void replay(const std::map<std::string, std::string> &m) {
         if (m.count("placement")) { replay_sweep(m); return; }
+        if (m.count("variant")) { large(atoi(m.at("N").c_str()), atoi(m.at("variant").c_str()), m.count("upto") ? atoi(m.at("upto").c_str()) : -1); return; }
         auto init = parse_init(m.at("init"));
         Model model;
         Dyn *d = make_initial(init, model);
@@ -420,6 +469,7 @@ struct TypeEntry {
     void (*run_bfs)(Run &, Cn &, int prop, DynCfg, int keyset, int init_id, int D, size_t max_states, int prefix);
     void (*run_rounds)(Run &, Cn &, int prop, DynCfg, int keyset, int R, int actions, size_t max_states);
     void (*run_sweep)(Run &, Cn &, int prop, DynCfg, int max_n, int F, int placement);
+    void (*run_large)(Run &, Cn &, int prop, DynCfg, int N, int variant);
     void (*replay)(Run &, Cn &, int prop, const std::map<std::string, std::string> &);
     int (*num_inits)(int keyset);
 };
@@ -478,6 +528,10 @@ struct Thunk {
         Explorer<K, V, PGMType> ex(r, c, prop, name(), cfg, keyset<K>(0));
         ex.sweep(max_n, F, placement);
     }
+    static void run_large(Run &r, Cn &c, int prop, DynCfg cfg, int N, int variant) {
+        Explorer<K, V, PGMType> ex(r, c, prop, name(), cfg, keyset<K>(0));
+        ex.large(N, variant);
+    }
     static void run_rounds(Run &r, Cn &c, int prop, DynCfg cfg, int ks_id, int R, int actions, size_t max_states) {
         Explorer<K, V, PGMType> ex(r, c, prop, name(), cfg, keyset<K>(ks_id));
         ex.bfs_rounds(R, actions, max_states);
@@ -489,7 +543,7 @@ struct Thunk {
     }
     static int num_inits(int ks_id) { return int(initial_states<K>(ks_id).size()); }
 };
-#define TYPE(NAME, TIER, K, V, ...) [] { Thunk<K, V, __VA_ARGS__>::name() = NAME; return TypeEntry{NAME, TIER, &Thunk<K, V, __VA_ARGS__>::run_bfs, &Thunk<K, V, __VA_ARGS__>::run_rounds, &Thunk<K, V, __VA_ARGS__>::run_sweep, &Thunk<K, V, __VA_ARGS__>::replay, &Thunk<K, V, __VA_ARGS__>::num_inits}; }()
+#define TYPE(NAME, TIER, K, V, ...) [] { Thunk<K, V, __VA_ARGS__>::name() = NAME; return TypeEntry{NAME, TIER, &Thunk<K, V, __VA_ARGS__>::run_bfs, &Thunk<K, V, __VA_ARGS__>::run_rounds, &Thunk<K, V, __VA_ARGS__>::run_sweep, &Thunk<K, V, __VA_ARGS__>::run_large, &Thunk<K, V, __VA_ARGS__>::replay, &Thunk<K, V, __VA_ARGS__>::num_inits}; }()
 
 static std::vector<TypeEntry> types() {
     return {
@@ -498,10 +552,11 @@ static std::vector<TypeEntry> types() {
         TYPE("u32/str/pgm<16,4>", 0, uint32_t, std::string, pgm::PGMIndex<uint32_t, 16>),
         TYPE("u64/u64/pgm<1,2>", 1, uint64_t, uint64_t, pgm::PGMIndex<uint64_t, 1, 2>),
         TYPE("i64/u32/pgm<4,4>", 1, int64_t, uint32_t, pgm::PGMIndex<int64_t, 4, 4>),
+        TYPE("u32/u32/pgm<1,4>", 2, uint32_t, uint32_t, pgm::PGMIndex<uint32_t, 1, 4>),   // tier 2: large scripted family only (Epsilon < EpsilonRecursive)
     };
 }
 
-struct Task { int type, keyset, init, D; DynCfg cfg; size_t max_states; int prefix = 0; int rounds = 0, actions = 0; int sweep_n = 0, sweep_f = 0, placement = 0; };
+struct Task { int type, keyset, init, D; DynCfg cfg; size_t max_states; int prefix = 0; int rounds = 0, actions = 0; int sweep_n = 0, sweep_f = 0, placement = 0; int large_n = 0, variant = 0; };
 
 int main(int argc, char **argv) {
     auto opt = mc::parse_args(argc, argv);
@@ -543,6 +598,16 @@ int main(int argc, char **argv) {
     };
     for (size_t t = 0; t < ty.size(); ++t) {
         if (ty[t].tier == 1 && !thorough) continue;
+        {   // large scripted family: (cfg, N) so that the bulk-loaded level keeps room for the flushes
+            struct LargeSpec { DynCfg cfg; int N; };
+            std::vector<LargeSpec> ls = {{{8, 2, 3}, 300}, {{16, 1, 2}, 200}, {{8, 1, 2}, 45}, {{4, 2, 3}, 40}, {{8, 2, 0}, 300}};
+            if (thorough) { ls.push_back({{16, 2, 3}, 3000}); ls.push_back({{8, 2, 3}, 420}); ls.push_back({{32, 1, 2}, 900}); }
+#ifdef VERIF_ASAN
+            if (!thorough) ls.resize(3);
+#endif
+            for (auto &l : ls) for (int v = 0; v < 6; ++v) { Task tk{int(t), 0, 0, 97, l.cfg, 0}; tk.large_n = l.N; tk.variant = v; tasks.push_back(tk); }
+        }
+        if (ty[t].tier == 2) continue;
         for (size_t c = 0; c < cfgs_q.size(); ++c) {
             add_cfg(cfgs_q[c], int(t), thorough ? Dt : Dq, c == 0 || thorough, 0);      // 4 colliding keys
             if (c <= 1 || thorough) add_cfg(cfgs_q[c], int(t), (thorough ? Dt : Dq) - 1, false, 1);   // 5 keys
@@ -579,18 +644,19 @@ int main(int argc, char **argv) {
     run.run_tasks(tasks.size(), [&](uint64_t i) {
         auto &t = tasks[i];
         if (run.deadline_passed()) return;
-        if (t.sweep_n) ty[t.type].run_sweep(run, cn, prop, t.cfg, t.sweep_n, t.sweep_f, t.placement);
+        if (t.large_n) ty[t.type].run_large(run, cn, prop, t.cfg, t.large_n, t.variant);
+        else if (t.sweep_n) ty[t.type].run_sweep(run, cn, prop, t.cfg, t.sweep_n, t.sweep_f, t.placement);
         else if (t.rounds) ty[t.type].run_rounds(run, cn, prop, t.cfg, t.keyset, t.rounds, t.actions, t.max_states);
         else ty[t.type].run_bfs(run, cn, prop, t.cfg, t.keyset, t.init, t.D, t.max_states, t.prefix);
     });
 
     mc::Run::EvidenceExtra ev;
     ev.states_counter = "distinct_canonical_states"; ev.transitions_counter = "transitions_executed"; ev.nontrivial_counter = "states_with_data_below_the_buffer";
-    ev.rule = "breadth-first search over all histories of insert_or_assign(k,v)/erase(k), k from a key set of 4-7 colliding keys (adjacent keys, gaps, the extremes of the key type), v from 2 values, on the real DynamicPGMIndex copied per transition; "
+    ev.rule = "(a) breadth-first search over all histories of insert_or_assign(k,v)/erase(k), k from a key set of 4-7 colliding keys (adjacent keys, gaps, the extremes of the key type), v from 2 values, on the real DynamicPGMIndex copied per transition; "
               "initial states: empty, every bulk-load of 1..3 sorted pairs with repeated keys, bulk-loads of 9 and 12 pairs landing two levels below the buffer, and non-initial starts reached by a fixed prefix of 11/15/19 (base 2) or 6/12 (base 4, leaving a non-empty last level with room) round-robin inserts (so that the next merges cascade through three and four levels), plus round-structured search (one action out of {a,b,tombstone} per key for buffer_max_size+1 keys per round, so that every round flushes the buffer once; 2-7 rounds) which reaches merges into an existing deepest level where tombstones are dropped, plus size sweeps (bulk-load of 0..70 distinct keys followed by 40 inserts of fresh distinct keys, three placements) which hit every exact fit of a flush into the free room of a level; configurations (base,buffer_level,index_level) with a 3-entry buffer and 4/8/16-entry levels so that depth-" + std::to_string(thorough ? Dt : Dq) +
               " histories cascade through three levels and small levels own a PGM-index; key/value/index types arithmetic, pointer and std::string values. A state is a distinct canonical form (used_levels + per-level list of key/value-or-tombstone); after every transition the property's oracle runs against std::map" +
               (prop == 5 ? " (find, count, lower_bound for every alphabet key and its neighbours)" : prop == 6 ? " (iteration from begin() and from every lower_bound to end(), range() for every lo<=hi of the query alphabet, size(), empty())" : " (sortedness, capacities, empty levels beyond used_levels, per-level index built over exactly the level's keys and answering the search contract, emptied levels' indexes reset)") +
-              ". Non-trivial: the state holds data in a level below the buffer.";
+              ". (b) large scripted family: bulk-load of 40..300 (thorough: up to 3000) irregularly spaced keys into a level that keeps room, then six scripts of erases of stored keys and inserts of fresh neighbours sized so that every flush merges into that level (size-preserving, interleaved, overwrite-then-erase; second round with the inverse operations), all oracles after every operation, also with a PGMIndex<.,1,4> (Epsilon < EpsilonRecursive) inside the levels. Non-trivial: the state holds data in a level below the buffer.";
     ev.bounds = "depth " + std::to_string(thorough ? Dt : Dq) + " from empty (4 keys), depth-1 (5 keys), depth-2 from small bulk-loads, deep starts depth " + std::to_string(thorough ? 7 : 5) + "; " + std::to_string(tasks.size()) + " (type,config,initial state) explorations";
     if (uint64_t nc = run.sh->counters[cn.capped_expl].load())
         ev.bounds += "; " + std::to_string(nc) + " of them stopped at their state cap before the target depth (the shallowest of these had completed every history up to length " + std::to_string(run.sh->counters[cn.min_full_depth_p1].load() - 1) + " beyond its start state); the others ran to their target depth";
